@@ -207,8 +207,7 @@ public:
 
    virtual status_t TemplatedUnflatten(DataUnflattener &)
    {
-      MCRASH("Message::TagDataArray:Unflatten()  This method should never be called!");
-      return B_UNIMPLEMENTED;  // just to keep the compiler happy
+      return B_UNIMPLEMENTED;  // tags are never serialized, so a buffer that claims to contain some is malformed (must not crash:  the bytes may have come from the network)
    }
 
    virtual uint32 TemplatedTypeCode() const {return B_TAG_TYPE;}
@@ -581,8 +580,7 @@ public:
 
    virtual status_t TemplatedUnflatten(DataUnflattener &)
    {
-      MCRASH("Message::PointerDataArray:Unflatten()  This method should never be called!");
-      return B_UNIMPLEMENTED;  // just to keep the compiler happy
+      return B_UNIMPLEMENTED;  // pointers are never serialized, so a buffer that claims to contain some is malformed (must not crash:  the bytes may have come from the network)
    }
 
    virtual AbstractDataArrayRef Clone() const;
